@@ -56,6 +56,9 @@ def check_run(ctx, name, m, t, no_prss, seed, lines, exps, metas, t_initial=None
             ctx.count('origin:' + sp['origin'])
             if sp['t'] != t or sp['m'] != m:
                 return f'{what}: random_split called with t={sp["t"]}, m={sp["m"]} but threshold is {t}, parties {m}'
+            if t >= 1 and sp['order'] <= m:
+                return (f'{what}: dealing over a field of order {sp["order"]} <= m={m}: the evaluation points 1..m are not distinct '
+                        f'non-zero field elements (the party whose point is 0 receives the dealt value itself as its share)')
             draws = sp['draws']
             if len(draws) != t * sp['n'] or any(d[0] != 'randbelow' or d[1] != sp['order'] for d in draws):
                 return (f'{what}: expected {t}*{sp["n"]} randbelow({sp["order"]}) draws, saw '
@@ -114,7 +117,7 @@ def run(ctx):
     rng = ctx.rng
     ctx._max_lines = ctx.scale(4000, 40000)
     lines, exps, metas = [], [], []
-    names = ['arith', 'fxp', 'mixed_await', 'fld_conv', 'seclist_random', 'bits_sort', 'output_subset', 'np']
+    names = ['arith', 'fxp', 'mixed_await', 'fld_conv', 'seclist_random', 'bits_sort', 'output_subset', 'np', 'smallfld']
     for (m, t, no_prss) in CFGS + ([(7, 3, False), (7, 2, True), (6, 2, False)] if ctx.thorough else []):
         for name in names:
             for _ in range(ctx.scale(1, 6)):
